@@ -271,6 +271,43 @@ for n in range(MAXLOG + 1):
                               z3.BoolVal(len(votes1) == 1 and len(pn) == 1), votes1[0].id == N.id.id if votes1 else z3.BoolVal(False),
                               pn[0][1].v == N.term0.v + 1 if pn else z3.BoolVal(False)), wit, lambda m, w: 'election-state')
 
+# ================================================================ E2: a new leadership starts from scratch
+ck.declare('E2_leader_state_reinitialised', f'become_leader on a node with log 0..{MAXLOG}, peers {PEER_COUNTS}, with or without a leader state left over from an earlier leadership (arbitrary match/next values)',
+           'afterwards the node is Leader, every peer has match_index 0 and next_index = last log index + 1, and nobody else is tracked: acknowledgements of an earlier leadership are never counted')
+for n in range(MAXLOG + 1):
+    for m_peers in PEER_COUNTS:
+        for leftover in (False, True):
+            st = ex.new_state()
+            N = Node(st, n)
+            peers = set_peers(st, N, m_peers)
+            if leftover:
+                make_leader(st, N, peers)
+                L0 = N.leadership(st)
+                L0.fields[F('LeadershipState', 'role')] = Enum('raft::RaftState', z3.BitVec('role_before', 64), {})
+                st.assume(z3.Or([z3.BitVec('role_before', 64) == v_ for v_ in ROLE.values()]))
+            else:
+                N.leadership(st).fields[F('LeadershipState', 'leader_volatile')] = none('std::option::Option<raft::LeaderVolatileState>')
+            res = run(st, 'RaftNode::become_leader', [N.ptr])
+            ck.note_path_problem(res, f'become_leader log={n} peers={m_peers} leftover={leftover}')
+            for r in res:
+                wit = lambda m, r=r, N=N, leftover=leftover, m_peers=m_peers: {'handler': 'become_leader', 'pre': pre_dump(m, N, r.st), 'leftover': leftover, 'peers': m_peers,
+                                                                              'old_match': [mval(m, z3.BitVec(f'match{i}', 64)) for i in range(m_peers)] if leftover else []}
+                if r.status != 'return':
+                    if r.status == 'panic':
+                        ck.require(ex, 'E2_leader_state_reinitialised', r.pc, None, z3.BoolVal(False), wit, lambda m, w: 'become-leader-panic')
+                    continue
+                f = r.st
+                mi1, ni1 = leader_maps(N, f)
+                if mi1 is None:
+                    ck.require(ex, 'E2_leader_state_reinitialised', r.pc, None, z3.BoolVal(False), wit, lambda m, w: 'no-leader-state')
+                    continue
+                cs = [N.role(f) == ROLE['Leader'], z3.BoolVal(len(mi1.keys) == m_peers and len(ni1.keys) == m_peers)]
+                for p_ in peers:
+                    mv, mp = map_lookup(mi1, p_.id, f)
+                    nv, np_ = map_lookup(ni1, p_.id, f)
+                    cs += [mp, np_, mv == U64(0), nv == U64(n + 1)]
+                ck.require(ex, 'E2_leader_state_reinitialised', r.pc, None, z3.And(cs), wit, lambda m, w: 'stale-leader-state')
+
 # ================================================================ T0: no handler clears or switches the vote inside a term (pre-vote response, timeout-now)
 ck.declare('T0_vote_stable_within_term', f'log 0..1, 2 peers, 0..1 pre-votes counted; handle_pre_vote_response and handle_timeout_now with arbitrary messages',
            'the term never decreases, and while the term is unchanged the recorded vote is unchanged (or was empty before): the vote of a term is cast once')
